@@ -160,16 +160,32 @@ def replay(args):
     d = os.path.join(workroot, f'b{idx}')
     ind = os.path.join(d, 'inputs')
     os.makedirs(ind, exist_ok=True)
-    for i in range(I):
-        # the names generate-input gives its files contain dots (bias ratio 0.5)
-        with open(os.path.join(ind, f'input_{i:02d}_bias_0.5.json'), 'w') as f:
-            json.dump(input_spec(i), f)
     # run-parallel numbers the inputs in the order glob() lists them (directory
-    # order, not sorted): input i of the model is the i-th file of that listing
+    # order, not sorted): input i of the model is the i-th file of that listing.
+    # The files are named so that the directory order IS the sorted order - an
+    # implementation that sorts its listing numbers them the same way.
     # ASSUMPTION recorded in DESIGN.md: every node sees the same listing order
     from glob import glob
-    name_no = [int(os.path.basename(p_).split('_')[1]) for p_ in glob(f'{ind}/*.json')]
-    pos = {k_: i_ for i_, k_ in enumerate(name_no)}
+    for salt in range(400):
+        # (the names generate-input gives its files contain dots: bias ratio 0.5)
+        names = [f'input_{i:02d}_s{salt}_bias_0.5.json' for i in range(I)]
+        for nm in names:
+            open(os.path.join(ind, nm), 'w').close()
+        listed = [os.path.basename(p_) for p_ in glob(f'{ind}/*.json')]
+        if listed == sorted(listed):
+            break
+        for nm in names:
+            os.remove(os.path.join(ind, nm))
+    else:
+        raise common.MachineryError('no set of input names whose directory order is the sorted order')
+    for i, nm in enumerate(names):
+        with open(os.path.join(ind, nm), 'w') as f:
+            json.dump(input_spec(i), f)
+    listed = [os.path.basename(p_) for p_ in glob(f'{ind}/*.json')]
+    if listed != names:
+        raise common.MachineryError('directory order changed while the inputs were written')
+    name_no = list(range(I))
+    pos = {k_: k_ for k_ in range(I)}
     res = os.path.join(d, 'results')
     ntasks = N * C
     digits = len(str(ntasks))
@@ -185,7 +201,7 @@ def replay(args):
             if st['a'] == 'grow':
                 ev['input'] = st['input']
                 k_ = name_no[st['input']]
-                with open(os.path.join(ind, f"input_{k_:02d}_bias_0.5.json"), 'w') as f:
+                with open(os.path.join(ind, names[k_]), 'w') as f:
                     json.dump(input_spec(k_, grown=True), f)
                 steps.append(ev)
                 continue
